@@ -213,10 +213,18 @@ def asdict_gate(run):
                     'Candidate.as_dict of droop/candidate.py, extracted, is no longer the table the JSON model is driven by')
 
 
+def actions_gate(run):
+    from props import gen_gate
+    return gen_gate(run, 'translator_actions', 'gen_actions', 'tables',
+                    'the key tables of ElectionRecord.action and the MethodMeek / MethodWIGM / qpq action hooks = Droop.actionBaseKeys, actionSnapKeys, actionHookKeys by rfl; '
+                    'the JSON model (jsonAction) emits the keys of those tables',
+                    'ElectionRecord.action / the rule action hooks, extracted, are no longer the tables the JSON model is driven by')
+
+
 @prop('C18')
 def C18(run):
     count_property(run, dict(rules=ALL, keys=['C18'], proj=proj_C18, quick=4000, thorough=100000,
-                             extra_gate=lambda run: code_gate(run) + asdict_gate(run)))
+                             extra_gate=lambda run: code_gate(run) + asdict_gate(run) + actions_gate(run)))
     rng = rng_for(run, 'render')
     cases = campaign.make_cases(rng, budget(run, 3000, 80000), ALL)
     items = []
